@@ -396,6 +396,40 @@ class Check:
             raise Undecided("harness %s -run %s wrote no output (test not matched?)\n%s" % (pkg, run, o[-2000:]))
         return out, o
 
+    def go_test_binary(self, pkg, files=None, rewrites=None, race=False):
+        """Compile the test binary of REPO/<pkg> with the harness files overlaid
+        (`go test -c`); returns its path.  Used for child processes that are
+        killed or straced."""
+        self._n_go += 1
+        hdir = os.path.join(HARNESS, pkg)
+        repl = {}
+        for fn in sorted(os.listdir(hdir)):
+            if fn.endswith(".go") and (files is None or fn in files):
+                repl[os.path.join(REPO, pkg, "zz_verif_" + fn)] = os.path.join(hdir, fn)
+        pkgname = None
+        for fn in repl.values():
+            m = re.search(r"^package (\w+)", open(fn).read(), re.M)
+            if m and not m.group(1).endswith("_test"):
+                pkgname = m.group(1)
+        vh = os.path.join(self.scratch, "vh_%s_test.go" % pkgname)
+        with open(vh, "w") as f:
+            f.write(open(os.path.join(VERIF, "tools", "vh_test.go.tmpl")).read().replace("PKGNAME", pkgname))
+        repl[os.path.join(REPO, pkg, "zz_verif_vh_test.go")] = vh
+        repl.update(rewrites or {})
+        ov = os.path.join(self.scratch, "overlay%d.json" % self._n_go)
+        with open(ov, "w") as f:
+            json.dump({"Replace": repl}, f)
+        binp = os.path.join(self.scratch, "testbin%d" % self._n_go)
+        moddir = REPO + "/internal/dnsserver" if pkg.startswith("internal/dnsserver") else REPO
+        cmd = ["go", "test", "-c", "-o", binp, "-tags", "verif", "-vet=off", "-overlay", ov]
+        if race:
+            cmd.append("-race")
+        cmd.append("./" + os.path.relpath(os.path.join(REPO, pkg), moddir))
+        rc, o, _ = sh(cmd, cwd=moddir, env=self.goenv(), timeout=900)
+        if rc != 0 or not os.path.exists(binp):
+            raise Undecided("cannot build test binary for %s:\n%s" % (pkg, o[-4000:]))
+        return binp
+
     def rewrite_clock(self, relpaths):
         """Generate copies of the listed files (relative to REPO, or absolute for
         module-cache files) in which time.Now/Since/Until go through VerifNow;
@@ -425,6 +459,35 @@ class Check:
                         "var VerifNow = time.Now\n" % pkgname)
             repl[os.path.join(d, "zz_verif_clock.go")] = dst
         return repl
+
+    def rewrite_sub(self, relpath, subs, overlay=None, decl=None):
+        """Regex rewrites of one source file (relative to REPO or absolute),
+        chained on top of an earlier rewrite of the same file in `overlay`.
+        subs: list of (pattern, replacement, min_count).  decl: Go source of an
+        extra non-test file added to the same package (declares the hook
+        variables).  Returns the updated overlay mapping."""
+        overlay = dict(overlay or {})
+        src = relpath if os.path.isabs(relpath) else os.path.join(REPO, relpath)
+        cur = overlay.get(src, src)
+        if not os.path.exists(cur):
+            raise Undecided("rewrite: %s does not exist" % cur)
+        text = open(cur).read()
+        for pat, rep, mn in subs:
+            text, n = re.subn(pat, rep, text, flags=re.M)
+            if n < mn:
+                raise Undecided("rewrite of %s: pattern %r matched %d times, expected >= %d (source shape changed)"
+                                % (relpath, pat, n, mn))
+        dst = os.path.join(self.scratch, "rs_" + hashlib.sha1(src.encode()).hexdigest()[:10] + "_" +
+                           os.path.basename(src))
+        with open(dst, "w") as f:
+            f.write(text)
+        overlay[src] = dst
+        if decl:
+            d = os.path.join(self.scratch, "decl_" + hashlib.sha1((src + decl).encode()).hexdigest()[:10] + ".go")
+            with open(d, "w") as f:
+                f.write(decl)
+            overlay[os.path.join(os.path.dirname(src), "zz_verif_hooks.go")] = d
+        return overlay
 
     # ------------------------------------------------------------- verdicts
     def sample(self, obj, cap=6):
